@@ -436,31 +436,37 @@ def effLimit (single : Bool) (dirLimit : Option Nat) : Nat :=
   | none => MAX_DIR_DATA
   | some l => if l > MAX_DIR_DATA then MAX_DIR_DATA else l
 
+/-- the early return of `FileInfo.write`: same CRC, same size and (only then) `data == self.read()` -/
+def sameData (crc : Bytes → Nat) (archs : List (Nat × Bytes)) (footer : Bytes) (i : Info) (data : Bytes) :
+    Except Err Bool :=
+  if crc data = i.crc ∧ data.length = i.archLen + i.startData.length then
+    match readInfo archs footer i with
+    | .error e => .error e
+    | .ok d => .ok (data = d)
+  else .ok false
+
+/-- the placement part of `FileInfo.write`: preload split, then directory tail or numbered archive -/
+def placeData (crc : Bytes → Nat) (single : Bool) (dirLimit : Option Nat) (archs : List (Nat × Bytes))
+    (footer : Bytes) (data : Bytes) (idx : Option Nat) : Written :=
+  let c := crc data
+  let lim := effLimit single dirLimit
+  let start := data.take lim
+  let arch := data.drop lim
+  if arch.length ≠ 0 then
+    match (if single then none else idx) with
+    | none => ⟨⟨c, none, footer.length, arch.length, start⟩, footer ++ arch, archs⟩
+    | some j =>
+      let old := (archGet archs j).getD []
+      ⟨⟨c, some j, old.length, arch.length, start⟩, footer, archSet archs j (old ++ arch)⟩
+  else ⟨⟨c, none, 0, 0, start⟩, footer, archs⟩
+
 /-- `FileInfo.write(data, arch_index)` after the mode check -/
 def writeInfo (crc : Bytes → Nat) (single : Bool) (dirLimit : Option Nat) (archs : List (Nat × Bytes))
     (footer : Bytes) (i : Info) (data : Bytes) (idx : Option Nat) : Except Err Written :=
-  let c := crc data
-  let same : Except Err Bool :=
-    if c = i.crc ∧ data.length = i.archLen + i.startData.length then
-      match readInfo archs footer i with
-      | .error e => .error e
-      | .ok d => .ok (data = d)
-    else .ok false
-  match same with
+  match sameData crc archs footer i data with
   | .error e => .error e
   | .ok true => .ok ⟨i, footer, archs⟩
-  | .ok false =>
-    let idx := if single then none else idx
-    let lim := effLimit single dirLimit
-    let start := data.take lim
-    let arch := data.drop lim
-    if arch.length ≠ 0 then
-      match idx with
-      | none => .ok ⟨⟨c, none, footer.length, arch.length, start⟩, footer ++ arch, archs⟩
-      | some j =>
-        let old := (archGet archs j).getD []
-        .ok ⟨⟨c, some j, old.length, arch.length, start⟩, footer, archSet archs j (old ++ arch)⟩
-    else .ok ⟨⟨c, none, 0, 0, start⟩, footer, archs⟩
+  | .ok false => .ok (placeData crc single dirLimit archs footer data idx)
 
 /-! ## operations -/
 
